@@ -219,16 +219,10 @@ def walk (cond0 : Nat) : St → List Snap → Nat → List Ev → List Ev × St 
     | none => (acc, st, some k)
 
 def kfOf (c0 c' : Ctx) (evs : List Ev) : String :=
-  let pre := c'.fns.take c0.fns.length
-  let inFn := redefinesExisting c0 evs && !decide (FnsPreserved c0 c')
-  let bodyless := inFn && (List.zip c0.fns pre).any fun (a, b) => a.body && !b.body
-  let replaced := inFn && (List.zip c0.fns pre).any fun (a, b) => a.fid != b.fid && b.body
-  -- a tuple symbol whose minor is not the hash of its decl (null tuple value stored by storeVariable), upgraded by the text
-  let opq := !(c0.coherent djb) && c'.tds.take c0.tds.length != c0.tds
-  let all := (if bodyless then ["C11.failed_redefinition_not_rolled_back"] else [])
-    ++ (if replaced then ["C11.complete_redefinition_survives_reject"] else [])
-    ++ (if opq then ["C11.null_tuple_symbol_restored_opaque"] else [])
-  if all.isEmpty then "-" else ",".intercalate all
+  -- the remaining finding: a redefinition of a pre-existing function was COMPLETED before the error, and it is
+  -- still installed afterwards
+  if redefinitionCompleted djb c0 (St.init c0) evs && !decide (FnsPreserved c0 c')
+  then "C11.complete_redefinition_survives_reject" else "-"
 
 /-- types tried for an unobserved trailing upgrade (which one it was does not matter once it is restored) -/
 def someTypes : List RegTy :=
